@@ -114,6 +114,51 @@ func condStrings(conds []ir.Cond) []string {
 	return ks
 }
 
+// expandPredicateHelpers rewrites a conjunction of outcomes into alternatives in
+// which every outcome of a call to a private boolean helper is replaced by the
+// conditions under which the helper returns that value.
+func expandPredicateHelpers(c *chk.Ctx, conds []ir.Cond, depth int) [][]ir.Cond {
+	alts := [][]ir.Cond{{}}
+	for _, cd := range conds {
+		var repl [][]ir.Cond
+		if call, ok := cd.V.(*ssa.Call); ok && depth < 3 {
+			if h := call.Call.StaticCallee(); h != nil && c.P.InRepo[h] && !ir.Exported(h) && h.Signature.Results().Len() == 1 && h.Signature.Results().At(0).Type().String() == "bool" {
+				constRet := true
+				for _, r := range ir.Returns(h) {
+					k, isK := ir.ReturnResult(r, 0).(*ssa.Const)
+					if !isK || k.Value == nil {
+						constRet = false
+						break
+					}
+					if (k.Value.String() == "true") == cd.Truth {
+						if len(r.Block().Preds) > 1 {
+							for _, p := range r.Block().Preds {
+								repl = append(repl, expandPredicateHelpers(c, ir.EdgeConds(p, r.Block()), depth+1)...)
+							}
+						} else {
+							repl = append(repl, expandPredicateHelpers(c, ir.CondsAt(r.Block()), depth+1)...)
+						}
+					}
+				}
+				if !constRet {
+					repl = nil
+				}
+			}
+		}
+		if repl == nil {
+			repl = [][]ir.Cond{{cd}}
+		}
+		var next [][]ir.Cond
+		for _, a := range alts {
+			for _, r := range repl {
+				next = append(next, append(append([]ir.Cond{}, a...), r...))
+			}
+		}
+		alts = next
+	}
+	return alts
+}
+
 // ruleBridgeGate: C18-D1.
 func ruleBridgeGate(c *chk.Ctx) {
 	f := jhttpFunc(c, "(Bridge).ServeHTTP")
@@ -133,8 +178,20 @@ func ruleBridgeGate(c *chk.Ctx) {
 		return
 	}
 	var edges []string
-	for _, p := range call.Block().Preds {
-		edges = append(edges, strings.Join(condStrings(ir.EdgeConds(p, call.Block())), "∧"))
+	preds := call.Block().Preds
+	if len(preds) == 0 {
+		preds = []*ssa.BasicBlock{nil}
+	}
+	for _, p := range preds {
+		var base []ir.Cond
+		if p == nil {
+			base = ir.CondsAt(call.Block())
+		} else {
+			base = ir.EdgeConds(p, call.Block())
+		}
+		for _, alt := range expandPredicateHelpers(c, base, 0) {
+			edges = append(edges, strings.Join(condStrings(alt), "∧"))
+		}
 	}
 	sort.Strings(edges)
 	got := strings.Join(edges, " | ")
@@ -167,11 +224,15 @@ func ruleBridgeGate(c *chk.Ctx) {
 		"the internal serve function is reached on edges ["+got+"]: a non-POST or non-JSON request could run handlers, or a legal one be refused")
 	// the failing edges write 405 / 415
 	codes := map[int64][]string{}
-	for _, sw := range statusWrites(c, f) {
-		if !sw.isC {
-			continue
+	for _, g := range c.P.Ext(f) {
+		for _, sw := range statusWrites(c, g) {
+			if !sw.isC {
+				continue
+			}
+			for _, ctx := range c.P.Contexts(sw.ci, func(h *ssa.Function) bool { return h == f }) {
+				codes[sw.code] = append(codes[sw.code], strings.Join(condStrings(ctx), "∧"))
+			}
 		}
-		codes[sw.code] = append(codes[sw.code], strings.Join(condStrings(ir.CondsAt(sw.ci.Block())), "∧"))
 	}
 	has := func(code int64, needle string) bool {
 		for _, k := range codes[code] {
@@ -183,7 +244,7 @@ func ruleBridgeGate(c *chk.Ctx) {
 	}
 	c.Check(has(405, `Method!="POST"`), "TABLE.gate", f, "405 for non-POST", f.Pos(), "405 is written on the method != POST edge", "no 405 on the method != POST edge")
 	c.Check(has(415, `ParseMediaType#0!="application/json"`) && has(415, "has[charset]"), "TABLE.gate", f, "415 for non-JSON / non-UTF-8", f.Pos(), "415 is written on the media-type and charset failure edges", "415 is not written on both the media-type and the charset failure edge")
-	c.Check(len(codes[500]) == 1 && (strings.Contains(codes[500][0], "¬err==nil") || strings.Contains(codes[500][0], "err!=nil")), "TABLE.gate", f, "error status for a failed serve", f.Pos(), "500 exactly when the internal serve function reports an error (e.g. invalid JSON body)", "the error of the internal serve function is not turned into an error status")
+	c.Check(len(codes[500]) >= 1 && (strings.Contains(codes[500][0], "¬err==nil") || strings.Contains(codes[500][0], "err!=nil")), "TABLE.gate", f, "error status for a failed serve", f.Pos(), "500 exactly when the internal serve function reports an error (e.g. invalid JSON body)", "the error of the internal serve function is not turned into an error status")
 }
 
 // ruleBridgeIDs: C18-D2/D3/D4.
@@ -387,49 +448,95 @@ func ruleGetterStatus(c *chk.Ctx) {
 		return
 	}
 	mnf, _ := pkgConstInt(c.M.Pkg, "MethodNotFound")
-	got := map[int64]string{}
-	for _, sw := range statusWrites(c, f) {
-		// the status may be a phi of constants (switch): enumerate
-		if phi, ok := sw.arg.(*ssa.Phi); ok {
-			for i, e := range phi.Edges {
-				k, isC := ir.ConstInt(e)
-				if !isC {
-					continue
-				}
-				var ks []string
-				for _, cd := range ir.EdgeConds(phi.Block().Preds[i], phi.Block()) {
-					if bo, ok := cd.V.(*ssa.BinOp); ok {
-						if kk, isK := ir.ConstInt(bo.Y); isK {
-							if call, ok := bo.X.(*ssa.Call); ok && call.Call.StaticCallee() != nil && call.Call.StaticCallee().Name() == "ErrorCode" {
-								d := fmt.Sprintf("code%s%d", bo.Op, kk)
-								if !cd.Truth {
-									d = "¬" + d
-								}
-								ks = append(ks, d)
-								continue
-							}
-						}
-					}
-					ks = append(ks, describeHTTPCond(cd))
-				}
-				sort.Strings(ks)
-				got[k] = strings.Join(ks, "∧")
+	// name a condition: parse error / call error / code == MethodNotFound
+	origin := func(x ssa.Value) string {
+		for _, src := range c.P.SourcesStop(ir.NormCell(x), func(v ssa.Value) bool {
+			switch v.(type) {
+			case *ssa.Call, *ssa.Extract:
+				return true
 			}
-			continue
+			return false
+		}) {
+			switch y := src.(type) {
+			case *ssa.Call:
+				if g := y.Call.StaticCallee(); g != nil && (g.Name() == "CallResult" || g.Name() == "Call") {
+					return "call"
+				}
+				return "parse"
+			case *ssa.Extract:
+				return "parse"
+			}
 		}
-		if sw.isC {
-			got[sw.code] = strings.Join(condStrings(ir.CondsAt(sw.ci.Block())), "∧")
+		return "?"
+	}
+	describe := func(cd ir.Cond) string {
+		neg := ""
+		if !cd.Truth {
+			neg = "¬"
+		}
+		if x, eq, ok := ir.NilCompare(cd.V); ok && x.Type().String() == "error" {
+			o := origin(x)
+			if eq {
+				if neg == "" {
+					return "¬" + o + "Err"
+				}
+				return o + "Err"
+			}
+			return neg + o + "Err"
+		}
+		if bo, ok := cd.V.(*ssa.BinOp); ok && (bo.Op == token.EQL || bo.Op == token.NEQ) {
+			if k, isK := ir.ConstInt(bo.Y); isK && k == mnf {
+				if call, ok := bo.X.(*ssa.Call); ok && call.Call.StaticCallee() != nil && call.Call.StaticCallee().Name() == "ErrorCode" {
+					if (bo.Op == token.EQL) == cd.Truth {
+						return "mnf"
+					}
+					return "¬mnf"
+				}
+			}
+		}
+		return neg + "other"
+	}
+	got := map[int64]map[string]bool{}
+	add := func(code int64, conds []ir.Cond) {
+		if got[code] == nil {
+			got[code] = map[string]bool{}
+		}
+		for _, cd := range conds {
+			got[code][describe(cd)] = true
 		}
 	}
-	want := map[int64]func(string) bool{
-		400: func(s string) bool { return strings.Contains(s, "err!=nil") && !strings.Contains(s, "code") },
-		404: func(s string) bool { return strings.Contains(s, fmt.Sprintf("code==%d", mnf)) && !strings.Contains(s, fmt.Sprintf("¬code==%d", mnf)) },
-		500: func(s string) bool { return strings.Contains(s, fmt.Sprintf("¬code==%d", mnf)) },
-		200: func(s string) bool { return strings.Contains(s, "¬err!=nil") },
+	for _, g := range c.P.Ext(f) {
+		for _, sw := range statusWrites(c, g) {
+			if phi, ok := sw.arg.(*ssa.Phi); ok {
+				for i, e := range phi.Edges {
+					if k, isC := ir.ConstInt(e); isC {
+						add(k, ir.EdgeConds(phi.Block().Preds[i], phi.Block()))
+					}
+				}
+				continue
+			}
+			if sw.isC {
+				for _, ctx := range c.P.Contexts(sw.ci, func(h *ssa.Function) bool { return h == f }) {
+					add(sw.code, ctx)
+				}
+			}
+		}
+	}
+	want := map[int64]func(m map[string]bool) bool{
+		400: func(m map[string]bool) bool { return m["parseErr"] && !m["mnf"] && !m["¬mnf"] },
+		404: func(m map[string]bool) bool { return m["mnf"] && !m["¬mnf"] && !m["parseErr"] },
+		500: func(m map[string]bool) bool { return m["¬mnf"] && !m["mnf"] && !m["parseErr"] },
+		200: func(m map[string]bool) bool { return m["¬callErr"] && !m["callErr"] && !m["parseErr"] },
 	}
 	for _, code := range []int64{200, 400, 404, 500} {
-		s, ok := got[code]
-		c.Check(ok && want[code](s), "TABLE.getter", f, fmt.Sprintf("status %d", code), f.Pos(), fmt.Sprintf("%d is written under [%s]", code, s), fmt.Sprintf("status %d is written under [%s] (found=%v), not as documented (400 parse error, 404 method-not-found, 500 other failure, 200 success)", code, s, ok))
+		m, ok := got[code]
+		var ks []string
+		for k := range m {
+			ks = append(ks, k)
+		}
+		sort.Strings(ks)
+		desc := strings.Join(ks, "∧")
+		c.Check(ok && want[code](m), "TABLE.getter", f, fmt.Sprintf("status %d", code), f.Pos(), fmt.Sprintf("%d is written under [%s]", code, desc), fmt.Sprintf("status %d is written under [%s] (found=%v), not as documented (400 parse error, 404 method-not-found, 500 other failure, 200 success)", code, desc, ok))
 	}
 	c.Check(len(got) == 4, "TABLE.getter", f, "no other status", f.Pos(), "exactly four statuses", fmt.Sprintf("%d distinct statuses written", len(got)))
 	// writeJSON's body is a json.Marshal result on its success edge
@@ -552,8 +659,8 @@ func ruleQueryParams(c *chk.Ctx) {
 		}
 		c.Check(okMethod, "PROV.params", f, "method is the trimmed path and non-empty", f.Pos(), "every successful return yields strings.Trim(path, \"/\") on its != \"\" edge", "a successful parse can return an empty method, or a method that is not the trimmed path")
 	}
-	if n < 6 {
-		c.Undecided("PROV.params", nil, "parameter stores", 0, "found %d stores into parameter maps (confirmed by hand: 6)", n)
+	if n < 2 {
+		c.Undecided("PROV.params", nil, "parameter stores", 0, "found %d stores into parameter maps (want ≥ 2: one per parser)", n)
 	}
 }
 
@@ -591,10 +698,7 @@ func ruleBodiesClosed(c *chk.Ctx) {
 	// the sender: a response that is not forwarded (204) is closed
 	send := jhttpFunc(c, "(*Channel).Send")
 	if send != nil {
-		for _, g := range c.P.Funcs {
-			if g.Parent() != send {
-				continue
-			}
+		for _, g := range pkgFuncs(c, c.M.JhttpPkg) {
 			var do *ssa.Call
 			ir.Instrs(g, func(ins ssa.Instruction) {
 				if call, ok := ins.(*ssa.Call); ok && call.Call.IsInvoke() && call.Call.Method.Name() == "Do" {
@@ -637,20 +741,20 @@ func ruleLoop(c *chk.Ctx) {
 		c.Undecided("PAIR.loop", nil, "Loop", 0, "not found")
 		return
 	}
-	// the per-connection goroutine
+	// the per-connection code: the function that obtains a service's assigner, run (possibly
+	// through a private helper) by a goroutine Loop starts
 	var conn *ssa.Function
 	var connGo *ssa.Go
+	var goBodyFn *ssa.Function
 	ir.Instrs(loop, func(ins ssa.Instruction) {
 		if g, ok := ins.(*ssa.Go); ok {
 			if b := goBody(c, g); b != nil {
-				calls := false
-				ir.Calls(b, func(ci ssa.CallInstruction) {
-					if ci.Common().IsInvoke() && ci.Common().Method.Name() == "Assigner" {
-						calls = true
-					}
-				})
-				if calls {
-					conn, connGo = b, g
+				for _, h := range c.P.Ext(b) {
+					ir.Calls(h, func(ci ssa.CallInstruction) {
+						if ci.Common().IsInvoke() && ci.Common().Method.Name() == "Assigner" {
+							conn, connGo, goBodyFn = h, g, b
+						}
+					})
 				}
 			}
 		}
@@ -663,7 +767,9 @@ func ruleLoop(c *chk.Ctx) {
 	newSvcParam := loop.Params[2]
 	var svcCall *ssa.Call
 	inLoopBody := false
-	for _, f := range []*ssa.Function{loop, conn} {
+	scan := []*ssa.Function{loop}
+	scan = append(scan, c.P.Ext(goBodyFn)...)
+	for _, f := range scan {
 		ir.Instrs(f, func(ins ssa.Instruction) {
 			call, ok := ins.(*ssa.Call)
 			if !ok {
